@@ -40,7 +40,7 @@ LRU_KEYS = {"get_bonding_capacity": CAP_KEYS, "get_semantic_robust_alphabet": [(
 _SF = None
 _PRESETS = None
 _REF = {}
-_KEY_RE = re.compile(r"^([A-Z][a-z]?)(?:[+-]([1-9][0-9]*))?$", re.ASCII)
+_KEY_RE = re.compile(r"^([A-Z][a-z]?)(?:[+-]([1-9][0-9]*))?\Z", re.ASCII)
 
 
 def worker_init():
@@ -321,10 +321,32 @@ def _op_set_items(items, label):
         except Exception as e:
             obs = type(e).__name__
         return obs, model.set(dict(items))
-    return Op("set(illegal: %s)" % label, f, "config")
+    return Op("set(grid: %s)" % label, f, "config")
 
 
 REJECTION_GRID = _rejection_grid()
+
+
+def _key_neighbourhood():
+    """edit-distance-1 neighbourhood of valid keys: every ASCII character (control characters included) and three non-ASCII
+    ones inserted at / replacing every position, every deletion; the model decides which neighbours are valid keys"""
+    chars = [chr(c) for c in range(128)] + ["\u0661", "\u00b2", "\u2028"]
+    seen, ops = set(), []
+    for seed in ("C", "Cl", "Fe+2", "N-1", "O+12"):
+        cand = [seed[:i] + seed[i + 1:] for i in range(len(seed))]
+        for i in range(len(seed) + 1):
+            for ch in chars:
+                cand.append(seed[:i] + ch + seed[i:])
+                if i < len(seed):
+                    cand.append(seed[:i] + ch + seed[i + 1:])
+        for k in cand:
+            if k not in seen and k != "?":
+                seen.add(k)
+                ops.append(_op_set_items([("?", 2), ("S", 1), (k, 3)], "key %r next to valid entries" % k))
+    return ops
+
+
+KEY_NEIGHBOURHOOD = _key_neighbourhood()
 
 TRANSLATE_OPS = [
     op_dec("[Si][=C][N+1][Ring1][Ring1]"), op_dec("[C][Xe][Foo]"), op_dec("[C][nop][#C][nop]"),
